@@ -31,7 +31,7 @@ echo "== demo WITH change" >> $LOG
 cargo test -p $PKG --offline --test $TEST 2>&1 | grep -E "^test result|^test .* (ok|FAILED)|^error" >> $LOG
 if [ -z "${SKIP_SUITE:-}" ]; then
 echo "== suite WITH change (incl. demo)" >> $LOG
-cargo nextest run --workspace --no-fail-fast --test-threads 8 --offline 2>&1 | grep -E "Summary|^\s+FAIL" | sort -u >> $LOG
+cargo nextest run --workspace --lib --tests --no-fail-fast --test-threads 8 --offline 2>&1 | grep -E "Summary|^\s+FAIL" | sort -u >> $LOG
 fi
 for c in "$@"; do
   echo "== check $c quick against the change" >> $LOG
